@@ -1,3 +1,4 @@
+\* exhaustive, every interleaving: two children, <= 5 requests in total (incl. malformed), overlap, safety only (2.7 M states)
 SPECIFICATION Spec
 CONSTANTS
   Children = {1, 2}
